@@ -3,7 +3,7 @@
    state, so the statements below quantify over ALL states (and all fault schedules).  Truthfulness
    for arbitrary states is C03 (clean => intact, counts) and C02 (Repair writes only data matching
    the recorded hashes), both stated for every state; restated here for the record. *)
-From Gopar Require Import Model.Base Model.CRC Model.GoPath Model.FS Model.Par2 Proofs.Par2Facts Proofs.Par2Verify.
+From Gopar Require Import Model.Base Model.CRC Model.GoPath Model.FS Model.Par2 Model.Par1 Proofs.Par2Facts Proofs.Par2Verify Proofs.Par2Faults Proofs.Par1Facts.
 Open Scope N_scope.
 
 Theorem C13_verify_no_panic : forall md5 ix st p, fst (par2_verify md5 ix st) <> Panic p.
@@ -31,3 +31,15 @@ Theorem C13_repair_writes_only_verified : forall md5 ix dbl fs r rp st',
                        N.of_nat (length (snd w)) = di_len info) ws.
 Proof. exact repair_writes. Qed.
 Print Assumptions C13_repair_writes_only_verified.
+
+(* Repair never panics either: for EVERY file-system state, index path, double-check setting and fault
+   schedule the model's Repair returns a result or an error *)
+Theorem C13_repair_no_panic : forall md5 ix dbl st p,
+  fst (fst (par2_repair md5 ix dbl st)) <> Panic p.
+Proof. intros md5 ix dbl st p. exact (repair_no_panic md5 ix dbl st p []). Qed.
+Print Assumptions C13_repair_no_panic.
+
+(* PAR1: Verify is pure for every state; Repair writes only data matching the entry's length and hashes *)
+Theorem C13_par1_verify_pure : forall md5 ix all st, io_fs (snd (par1_verify md5 ix all st)) = io_fs st.
+Proof. exact par1_verify_pure. Qed.
+Print Assumptions C13_par1_verify_pure.
